@@ -185,7 +185,7 @@ MODEL_IMPLYING = {"eval", "batch_eval", "min", "max"}
 @rule(
     "C11.satevidence",
     props=("C11", "C12"),
-    floor=5,
+    floor=3,
     family="GRD",
     desc="_cached_satness = True is written only after a call whose normal return implies a model "
     "(eval/batch_eval/min/max) or under a truthy satisfiable/solution result",
@@ -316,7 +316,7 @@ def c11_rwkey(R):
 @rule(
     "C11.deadcache",
     props=("C11",),
-    floor=5,
+    floor=3,
     family="DEP",
     desc="a cache field that receives an informative write is consulted by some decision outside the "
     "copy/pickle/merge plumbing",
@@ -443,6 +443,21 @@ def _alpha(fn):
     return fn
 
 
+def _skeleton(stmts):
+    """statement structure without the expressions"""
+    out = []
+    for st in stmts:
+        kids = []
+        for fld in ("body", "orelse", "finalbody"):
+            b = getattr(st, fld, None)
+            if isinstance(b, list) and b and isinstance(b[0], ast.stmt):
+                kids.append((fld, _skeleton(b)))
+        for h in getattr(st, "handlers", []) or []:
+            kids.append(("handler", _skeleton(h.body)))
+        out.append((type(st).__name__, tuple(kids)))
+    return tuple(out)
+
+
 def _dump_body(fn):
     return [ast.dump(s) for s in fn.body], [ast.unparse(s) for s in fn.body]
 
@@ -491,12 +506,19 @@ def c11_dual(R):
         R.need("min" in ms and "max" in ms, f"{cname} lacks min/max")
         full = dict(mp)
         full.update({v: k for k, v in mp.items()})
-        a = _alpha(_Renamer(full).visit(util.clone(ms["min"])))
-        b = _alpha(ms["max"])
+        res = util.helper_resolver(tree, m, c)
+        fmin, fmax = util.inline_helpers(ms["min"], res), util.inline_helpers(ms["max"], res)  # private helpers are part of the body
+        a = _alpha(_Renamer(full).visit(util.clone(fmin)))
+        b = _alpha(fmax)
         da, ta = _dump_body(a)
         db, tb = _dump_body(b)
         if da == db:
             R.ok(m, ms["min"], f"{cname}.min is the dual of {cname}.max")
+            continue
+        if _skeleton(a.body) != _skeleton(b.body):
+            # one of the two was restructured on its own: the bodies cannot be compared statement by statement.
+            # That is not evidence of a defect; the polarity of both is still decided by C11.minmaxpol / C11.rwkey
+            R.ok(m, ms["min"], f"{cname}.min / {cname}.max have different statement structure: not compared here", nontrivial=False)
             continue
         # report first differing statement
         diff = None
@@ -573,16 +595,18 @@ def c11_minmaxpol(R):
         R.need(fn is not None, f"FullFrontend.{name} missing")
         fn = util.positive_ifs(fn)
         n_if = 0
+        CMPS = {"SLE", "ULE", "SGE", "UGE", "SLT", "ULT", "SGT", "UGT"}
         for n in walk_no_nested(fn):
-            if isinstance(n, ast.If) and ast.unparse(n.test) == "signed":
+            # `if signed: <build with S*> else: <build with U*>` or `cmp = S* if signed else U*`
+            if isinstance(n, (ast.If, ast.IfExp)) and ast.unparse(n.test) == "signed":
                 n_if += 1
-                for arm, exp in ((n.body, s), (n.orelse, u)):
+                arms = ((n.body, s), (n.orelse, u)) if isinstance(n, ast.If) else (([n.body], s), ([n.orelse], u))
+                for arm, exp in arms:
                     ops = {
-                        (dotted(x.func) or "").split(".")[-1]
+                        (dotted(x) or "").split(".")[-1]
                         for st in arm
                         for x in ast.walk(st)
-                        if isinstance(x, ast.Call) and (dotted(x.func) or "").split(".")[-1] in
-                        {"SLE", "ULE", "SGE", "UGE", "SLT", "ULT", "SGT", "UGT"}
+                        if isinstance(x, (ast.Attribute, ast.Name)) and (dotted(x) or "").split(".")[-1] in CMPS
                     }
                     R.check(
                         ops == {exp},
@@ -900,7 +924,7 @@ def c11_forward(R):
 @rule(
     "C11.flush",
     props=("C11", "C14", "C17"),
-    floor=10,
+    floor=7,
     family="DEP",
     desc="every native query in FullFrontend passes solver=self._get_solver() evaluated at the call, and _add "
     "queues exactly what ConstrainedFrontend._add accepted",
